@@ -215,6 +215,8 @@ def run_shard(shard, rec):
             for fail_at in [None] + list(range(length)):
                 if fail_at is not None and r.random() < (0.5 if rec.tier == "quick" else 0.0) and length > 4:
                     continue
+                if rec.should_stop(30):
+                    break
                 calls = gen_calls(r, length, fail_at)
                 n += 1
                 check_case(fx, Ref, calls, r.random() < 0.3, shard["serializer"], rec, n)
